@@ -579,6 +579,9 @@ def store_subscript(I, base, slice_node, value, env):
 
 
 def setitem(I, base, key, value):
+    if isinstance(base, OptVal):
+        I.oblige(f"store_not_None@{I.cur_line}", base.present, "safety")
+        base = base.value
     key = _val(key) if not isinstance(key, slice) else key
     if isinstance(base, dict):
         if isinstance(key, (StrVal,)) or is_z3(key):
@@ -1024,6 +1027,21 @@ def class_attr(I, cname, attr):
                 and st.target.id == attr and st.value is not None:
             if isinstance(st.value, ast.Constant):
                 return st.value.value
+    for st in node.body:
+        if isinstance(st, ast.Assign) and any(
+                isinstance(t, ast.Name) and t.id == attr for t in st.targets):
+            v = st.value
+            try:
+                return ast.literal_eval(v)
+            except Exception:
+                pass
+            if isinstance(v, ast.Call) and isinstance(v.func, ast.Name) \
+                    and v.func.id == "dict" and not v.args:
+                try:
+                    return {k.arg: ast.literal_eval(k.value)
+                            for k in v.keywords}
+                except Exception:
+                    pass
     raise Unsupported(f"class attribute {cname}.{attr} is not a constant")
 
 
@@ -1398,6 +1416,10 @@ def _isinstance(I, x, t):
             return "bool" in names
     if isinstance(x, TypedVal):
         return x.isinstance(names)
+    if isinstance(x, StrVal):
+        return "str" in names
+    if isinstance(x, (FuncVal, PoolVal, Opaque)):
+        return False
     raise Unsupported(f"isinstance({x0!r}, {names})")
 
 
@@ -2720,6 +2742,13 @@ def _sum_parts(t):
     return t.children()
 
 
+def lam_at(lam, k):
+    """the summand at index k, beta-reduced"""
+    if z3.is_quantifier(lam) and lam.is_lambda():
+        return z3.substitute_vars(lam.body(), k)
+    return z3.Select(lam, k)
+
+
 @lib("spec.lemma_sum_nonneg")
 def _lemma_sum_nonneg(I, t):
     """Finset.sum_nonneg: a finite sum of non-negative terms is >= 0."""
@@ -2727,7 +2756,7 @@ def _lemma_sum_nonneg(I, t):
     k = z3.Int(I.namer.fresh("q_sn"))
     I.stats.lib_used.add("lemma:sum_nonneg")
     return z3.Implies(z3.ForAll([k], z3.Implies(
-        z3.And(lo <= k, k < hi), z3.Select(lam, k) >= 0)), t >= 0)
+        z3.And(lo <= k, k < hi), lam_at(lam, k) >= 0)), t >= 0)
 
 
 @lib("spec.lemma_sum_pos")
@@ -2739,8 +2768,8 @@ def _lemma_sum_pos(I, t):
     I.stats.lib_used.add("lemma:sum_pos")
     return z3.Implies(z3.And(
         z3.ForAll([k], z3.Implies(z3.And(lo <= k, k < hi),
-                                  z3.Select(lam, k) >= 0)),
-        z3.Exists([j], z3.And(lo <= j, j < hi, z3.Select(lam, j) > 0))),
+                                  lam_at(lam, k) >= 0)),
+        z3.Exists([j], z3.And(lo <= j, j < hi, lam_at(lam, j) > 0))),
         t > 0)
 
 
